@@ -327,11 +327,93 @@ def _drop_empty(f):
     return (f[0], _drop_empty(f[1]), _drop_empty(f[2]))
 
 
+def rule_node_groups(chk, prog):
+    """OrthoPlanariser::computeNodeGroups: the sweep along each line loses no segment."""
+    from fractions import Fraction
+    from ..microai.interp import Interp, Obj, Vec, Oracle, Unsupported, AssertFail, default_obj
+    r = chk.rule("NODE-GROUPS", "OrthoPlanariser::computeNodeGroups interpreted on small sets of collinear edge segments (end to end, overlapping, "
+                 "nested, a ZERO-LENGTH segment between two others, two parallel lines): every segment's two end nodes end up together in one "
+                 "node group, every group has at least two nodes, and segments on different lines never share a group -- a segment whose close "
+                 "event is processed before its open event stays open for ever and swallows the rest of its line", floor=5)
+    fn = prog.fn("dialect::OrthoPlanariser::computeNodeGroups")
+
+    def node(i, x, y):
+        return default_obj(prog, "dialect::Node", {"_id": i, "m_cx": Fraction(x), "m_cy": Fraction(y)})
+    scenes = {
+        "end to end with a zero-length segment in the middle": [(10, 0, 5), (10, 5, 5), (10, 5, 9), (20, 0, 4)],
+        "overlapping segments": [(10, 0, 6), (10, 4, 9), (10, 12, 15)],
+        "nested segments": [(10, 0, 9), (10, 3, 5), (30, 1, 2)],
+        "zero-length segment first on its line": [(10, 2, 2), (10, 2, 7), (10, 7, 11)],
+        "two zero-length segments at one point": [(10, 0, 4), (10, 4, 4), (10, 4, 4), (10, 4, 8)],
+    }
+    for name, segs in scenes.items():
+        nodes, objs = [], []
+        for k, (c, lo, hi) in enumerate(segs):
+            a, b = node(2 * k, lo, c), node(2 * k + 1, hi, c)
+            nodes += [a, b]
+            objs.append(default_obj(prog, "dialect::EdgeSegment", {"orientation": 0, "constCoord": Fraction(c), "lowerBound": Fraction(lo),
+                                                                    "upperBound": Fraction(hi), "openingNode": a, "closingNode": b}))
+        it = Interp(prog, Oracle([]))
+        r.count()
+        try:
+            g = it.call(fn, default_obj(prog, "dialect::OrthoPlanariser", {}), None, None, arg_values=[Vec(list(objs), "dialect::EdgeSegment *")])
+        except Unsupported as e:
+            raise AnalysisBroken("computeNodeGroups outside the interpreter subset (%s): %s" % (name, e))
+        except AssertFail as e:
+            r.bad(name, fn.where(), "assertion fails: %s" % e)
+            continue
+        groups = [[n.f["_id"] for n in grp.items] for grp in g.items]
+        bad = None
+        for k, (c, lo, hi) in enumerate(segs):
+            if not any(2 * k in grp and 2 * k + 1 in grp for grp in groups):
+                bad = bad or "segment %d ([%s,%s] on line %s) has its end nodes in no common group; groups: %s" % (k, lo, hi, c, groups)
+        if bad is None and any(len(grp) < 2 for grp in groups):
+            bad = "a group with fewer than two nodes: %s" % groups
+        if bad is None:
+            line = {}
+            for k, (c, lo, hi) in enumerate(segs):
+                line[2 * k] = line[2 * k + 1] = c
+            if any(len({line[i] for i in grp}) > 1 for grp in groups):
+                bad = "a group mixes nodes of different lines: %s" % groups
+        (r.bad if bad else r.ok)(name, fn.where(), bad or "%d groups" % len(groups))
+
+
+def rule_route_clears(chk, prog):
+    r = chk.rule("ROUTE-CLEARS-BENDS", "Graph::route discards the per-edge state of an earlier routing / planarisation before it routes again: every "
+                 "path to RoutingAdapter::route passes Graph::clearAllRoutes, which calls Edge::clearRouteAndBends for every edge, which clears "
+                 "both the route and the bend nodes (planarise() reads the bend nodes of edges whose new route is straight)", floor=3)
+    fn = prog.fn("dialect::Graph::route")
+    g = CFG(fn)
+    clr = [c for c in calls(fn) if c.get("cname") == "dialect::Graph::clearAllRoutes"]
+    rt = [c for c in calls(fn) if c.get("cname") == "dialect::RoutingAdapter::route"]
+    r.count()
+    if not rt:
+        raise AnalysisBroken("Graph::route no longer calls RoutingAdapter::route")
+    if not clr or g.must_precede([c["id"] for c in clr], rt[0]["id"]) is not None:
+        r.bad("Graph::route", fn.where(), "the graph is routed again without clearAllRoutes(): edges that become straight keep the bend nodes of "
+              "the previous planarisation")
+    else:
+        r.ok("Graph::route", fn.loc(clr[0]))
+    fc = prog.fn("dialect::Graph::clearAllRoutes")
+    cs = [c for c in calls(fc) if c.get("cname") == "dialect::Edge::clearRouteAndBends"]
+    loops = [n for n in fc.nodes() if n.get("k") == "CXXForRangeStmt"]
+    r.count()
+    ok = bool(cs) and len(loops) == 1 and "m_edges" in norm(loops[0].get("range")) and CFG(fc).iteration_can_skip(loops[0], [cs[0]["id"]]) is None
+    (r.ok if ok else r.bad)("Graph::clearAllRoutes", fc.where(), "" if ok else "not every edge of the graph has clearRouteAndBends() called")
+    fe = prog.fn("dialect::Edge::clearRouteAndBends")
+    cleared = {norm(call_object(c)) for c in calls(fe) if str(c.get("cname", "")).endswith("::clear")}
+    r.count()
+    (r.ok if {"m_route", "m_bendNodes"} <= cleared else r.bad)("Edge::clearRouteAndBends", fe.where(), "" if {"m_route", "m_bendNodes"} <= cleared else
+                                                              "clears only %s" % sorted(cleared))
+
+
 def run(chk):
     prog = chk.load()
     chk.guard(rule_peel, chk, prog)
     chk.guard(rule_stems, chk, prog)
     chk.guard(rule_buckets, chk, prog)
     chk.guard(rule_components, chk, prog)
+    chk.guard(rule_node_groups, chk, prog)
+    chk.guard(rule_route_clears, chk, prog)
     from .c14 import rule_tree_flip
     chk.guard(rule_tree_flip, chk, prog)          # bounds of a flipped / translated tree: what keeps sibling trees off each other
